@@ -51,6 +51,11 @@ def history_messages(rng: random.Random):
             (a[2], None, None), (e1, 3, None), (a[2], None, None), (e1, 5, [0, 1]), (e2, 5, None)]
 
 
+def usb_packet(ident: int, data: bytes) -> bytes:
+    body = bytes([0xAA, 0x55, 0x01, 0x02, 0x01]) + ident.to_bytes(4, "little") + bytes([len(data)]) + data + bytes(8 - len(data)) + b"\x00"
+    return body + bytes([sum(body[2:19]) & 0xFF])
+
+
 def wire_packets(kind: str, msgs, rng: random.Random, with_bad: bool = True):
     """list of (bytes, label) for the client kind: valid packets of msgs interleaved with undecodable ones;
     an item (message, q, keep) forces the encoder's sequence counter to q and keeps only the listed frames"""
@@ -69,7 +74,8 @@ def wire_packets(kind: str, msgs, rng: random.Random, with_bad: bool = True):
                 pk.append((p, "valid"))
             if with_bad and i % 2 == 0:
                 pk.append((bytes([0x88, 0x09, 0x01, 0x02, 0x03] + [i] * 8), "unknown-pgn"))
-                pk.append((bytes([0x88]) + (0x09F11200 + i).to_bytes(4, "big") + b"\xff" * 6 + b"\xfe\xff", "out-of-range"))
+                pk.append((bytes([0x88]) + (0x09F11200 + i).to_bytes(4, "big") + bytes([1, 0xFD, 0xFF, 0, 0, 0, 0, 0xFC]), "out-of-range"))
+                pk.append((bytes([0x81]) + (0x09F80500 + i).to_bytes(4, "big") + bytes([0x20]) + bytes(7), "truncated-fast"))
         elif kind == "waveshare":
             for p in enc.encode_usb(m):
                 pk.append((p, "valid"))
@@ -80,6 +86,11 @@ def wire_packets(kind: str, msgs, rng: random.Random, with_bad: bool = True):
             if with_bad and i % 2 == 1:
                 # line noise that cannot be mistaken for a packet start (no marker, no half marker at its ends)
                 pk.append((bytes([0x01, 0x02, 0x7f, 0x03, 0x10 + i]), "noise"))
+            if with_bad:
+                # well-formed packets (marker, length, checksum) the decoder refuses with an error: a field out of
+                # range, a fast-packet frame without its length byte - right behind a packet that decodes
+                pk.append((usb_packet(0x09F11200 + i, bytes([1, 0xFD, 0xFF, 0, 0, 0, 0, 0xFC])), "out-of-range"))
+                pk.append((usb_packet(0x09F80500 + i, bytes([0x20])), "truncated-fast"))
         elif kind == "yd":
             for p in enc.encode_yacht_devices(m):
                 pk.append((b"00:00:0%d.000 R " % (i % 10) + p, "valid"))
